@@ -184,8 +184,16 @@ ob("C12.two_chars", "c12::two_chars", {"C12": "P"},
 ob("C12.short_tokens", "c12::short_tokens", {"C12": "P"},
    "forall one-character tokens and the empty token: blank", ["PokerCard::from_index", "parse::get_rank_and_suit"], unwind=6)
 
+# measured solver seconds on this box (unloaded); the per-obligation limit is max(300, 8 x measured)
+MEASURED = {"C01.entry_points": 61, "C01.k1": 16, "C01.k3": 59, "C01.rep_distinct": 76, "C01.rep_full_house": 55, "C01.rep_pair": 219, "C01.rep_quads": 51, "C01.rep_trips": 64, "C01.rep_two_pair": 103, "C01.sort_lemma": 117, "C02.seven_entry_points": 170, "C02.seven_min": 71, "C02.six_entry_points": 116, "C02.six_min": 19, "C02.validated_rank": 133, "C03.five_identity": 68, "C03.seven_witness": 155, "C03.six_witness": 62, "C04.valid_2": 2, "C04.valid_3": 3, "C04.valid_4": 4, "C04.valid_5": 14, "C04.valid_6": 67, "C04.valid_7": 167, "C05.blank_five_invalid": 52, "C05.find_kb": 493, "C05.find_total": 29, "C05.five_safe": 11, "C05.products_floor": 7, "C05.seven_safe": 8, "C05.six_safe": 4, "C06.class_ranges": 42, "C06.class_table_order": 0, "C06.name_class_all": 74, "C07.enum_monotone": 68, "C07.pair_laws": 40, "C07.transitive": 46, "C08.card_cycle": 1, "C08.five_triple": 130, "C08.six_shift": 34, "C08.seven_shift": 116, "C08.slotwise_2": 1, "C08.slotwise_3": 1, "C08.slotwise_4": 2, "C08.slotwise_5": 2, "C08.slotwise_6": 3, "C08.slotwise_7": 4, "C09.min_lemma": 132, "C10.accessors": 1, "C10.constants": 0, "C10.create": 0, "C10.filter_exact": 0, "C11.card_order": 0, "C11.sort_2": 3, "C11.sort_3": 4, "C11.sort_4": 7, "C11.sort_5": 11, "C11.sort_6": 40, "C11.sort_7": 132, "C12.card_token_bytes": 37, "C12.rank_char": 0, "C12.render_parse": 4, "C12.short_tokens": 2, "C12.suit_char": 0, "C12.two_chars": 4, "C13.predicates": 13, "C14.from_binary_card": 0, "C14.from_ckc": 0, "C14.round_trip": 1, "C15.count_2": 1, "C15.count_3": 4, "C15.count_4": 82, "C15.from_2": 2, "C15.from_3": 2, "C15.from_4": 2, "C15.from_5": 3, "C15.from_6": 3, "C15.from_7": 4, "C15.peel": 8, "C15.peel_all": 543, "C15.peel_twice": 14, "C15.set_ops": 7, "C16.try_from": 32, "C17.chen": 23, "C17.chen_points": 0, "C18.deck": 0, "C18.presets": 3, "C18.slot_tables": 4, "C19.five": 3, "C19.four": 1, "C19.seven": 9, "C19.seven_two_writes": 1, "C19.six": 7, "C19.three": 1, "C19.two": 1, "C20.flags": 1, "C20.order": 0}
+
 if __name__ == "__main__":
     exec(open(os.path.join(ROOT, "tools", "obs_def2.py")).read()) if os.path.exists(os.path.join(ROOT, "tools", "obs_def2.py")) else None
+    for o in OBS:
+        m = MEASURED.get(o["name"])
+        if m is not None and o["engine"] == "kani":
+            o["timeout"] = max(300, 8 * m)
+            o["measured_s"] = m
     with open(os.path.join(ROOT, "obligations.json"), "w") as f:
         json.dump(OBS, f, indent=1)
     print(len(OBS), "obligations")
